@@ -10,4 +10,6 @@ for p in "$@"; do
   echo "reversed $sha check=$p exit=$rc $(grep -c '^VIOLATION' /tmp/revfix_${sha}_$p.txt) violation line(s) $(grep -m1 '^VIOLATION' /tmp/revfix_${sha}_$p.txt | sed 's/.*replay=//' | cut -c1-80)"
 done
 git -C /repo checkout -- .
+# the evidence files must describe runs on the unchanged tree: put back what these runs overwrote
+git -C /verif checkout -- evidence 2>/dev/null
 /verif/go/bin/extract /repo /verif/lean/Gowarc/Gen >/dev/null
